@@ -29,7 +29,7 @@ P = {
          'the Lean model is instantiated with the table of real two-signature bit patterns. PARTIAL: a data race inside one compiled iteration is sampled, not proved.',
          '§5 C05', 'OpenMP prange semantics assumed (each iteration once, loop-assigned variables private); h5py slicing trusted.'),
  'C20': (True, 'Lean 4 theorems (refinement of the concatenated representation and of every index form to list semantics) + exhaustive/random correspondence',
-         'Theorems: concat_refines_list (all index forms incl. the contiguous fast path), ofList_toList, slice_spec/arange_mem (clipped arithmetic progression), '
+         'Theorems: concat_refines_list (all index forms incl. the contiguous fast path), window_refines_list, ofList_toList, slice_spec/arange_mem (clipped arithmetic progression), '
          'ints/mask/int/errors specs, applyMut list semantics, sigEq_iff. Tie: SignatureArray/SignatureList/HDF5Signatures against GambitV.getItemList on '
          'every slice over a small range, all short index lists and masks, NumPy integer dtypes, ill-typed indices, mutation histories, equality.',
          '§5 C20', 'CPython slice.indices / numpy.arange / flatnonzero are modelled (validated by the c20.sliceidx stream); h5py trusted.'),
@@ -74,7 +74,7 @@ P = {
          'prints for that genome alone, labels derived in Lean.',
          '§5 C08', 'click parsing, process pools and the exporters are exercised, not modelled; timestamps/paths excluded from a row.'),
  'C12': (True, 'Lean 4 theorems (representation round-trip; both write paths agree; refusal of unmarked files) + correspondence incl. raw HDF5 datasets',
-         'Theorems: read_write, write_paths_agree, writeSlices_eq, split_concat, foreign_refused, load_only_marked. Tie: dump_signatures/load_signatures over containers x ID kinds x Unicode/nested '
+         'Theorems: read_write, read_window, write_paths_agree, writeSlices_eq, split_concat, foreign_refused, load_only_marked. Tie: dump_signatures/load_signatures over containers x ID kinds x Unicode/nested '
          'metadata x compression x k in 1..32; stored values/bounds vs the Lean store model; index expressions on the loaded object vs list semantics; foreign contents must raise SignaturesFileError.',
          '§5 C12', 'h5py/HDF5 as a key-value store (trusted to return what was stored).'),
  'C13': (True, 'Lean 4 theorems (every completion order yields the file-order list; any failing file fails the call) + exhaustive schedule enumeration through a harness executor',
@@ -89,18 +89,18 @@ P = {
          'Theorems: csv_roundtrip(_crlf), distCsv_parse, label_spec, fmt4_nearest, square_eq_self_matrix. Tie: gambit dist over the 3 x 5 ways of supplying the sides; the Lean distCsv instantiated with the '
          'real pairwise bit patterns must equal the output bytes; CSV model vs CPython csv; fmt4 vs format(x, "0.4f").',
          '§5 C16', 'CPython float formatting validated by stream, click parsing trusted.'),
- 'C17': (True, 'Lean 4 theorems about the linkage-to-tree conversion (leaves, non-negative branches, ultrametric, path = 2 x merge height) + a Lean checker applied to the printed tree',
-         'Theorems: leaves_perm, branch_nonneg, ultrametric, path_eq_twice_merge_height for every ValidLinkage. Tie: gambit tree output parsed and checked by GambitV.checkTree against the real pairwise '
+ 'C17': (True, 'Lean 4 theorems about the linkage-to-tree conversion and about an exact UPGMA model of hclust (heights = averages, minimal merges, monotone heights) + SciPy merges replayed in the model + a Lean checker applied to the printed tree',
+         'Theorems: leaves_perm, branch_nonneg, ultrametric, path_eq_twice_merge_height for every ValidLinkage; for the exact UPGMA model of hclust: upgma_height_is_average, upgma_step_minimal, upgma_monotone_all (symmetric D), upgma_valid (so ValidLinkage is proved of the model, not assumed), replay_minimal, replay_eq_of_tieFree. Tie: SciPy\'s merge sequence from gambit.cluster.hclust replayed in the model on every run; gambit tree output parsed and checked by GambitV.checkTree against the real pairwise '
          'distances (leaves = labels once, binary, >= 0, ultrametric, every merge a valid average-linkage step) — SciPy/Biopython output is checked per run, not trusted. PARTIAL: float64 subtraction and '
          'the 8-significant-digit Newick format enter as a tolerance.',
          '§5 C17', 'exact scaling of all numbers of a case by the harness; tolerance 1e-8 per branch.'),
  'C18': (True, 'Lean 4 theorems (state-machine invariant: durable data unchanged over every history; commit raises; flush is a no-op) + hash/open-mode/SQL recording',
-         'Theorems: durable_invariant, txn_stays_empty, commit_raises, flush_noop, history_rows, dbOpens_never_write. Tie: histories of CLI commands and library calls (failing ones interleaved) on a scratch '
-         'copy: sha256 and directory listing unchanged, every open of a database file is a read, no SQL other than SELECT/PRAGMA; session histories vs the Lean ReadOnlySession machine. PARTIAL: OS/SQLite/HDF5 assumed.',
+         'Theorems: durable_invariant, txn_stays_empty, commit_raises, txn_commit_raises, begin_block_raises, flush_noop, raw_sql_discarded, history_rows, dbOpens_never_write. Tie: histories of CLI commands and library calls (failing ones interleaved) on a scratch '
+         'copy: sha256 and directory listing unchanged, every open of a database file is a read, no SQL other than SELECT/PRAGMA; session histories (ORM changes, direct SQL, commit / commit through the transaction object / begin-block, after a writable maker was created for the same file) vs the Lean ReadOnlySession machine. PARTIAL: OS/SQLite/HDF5 assumed.',
          '§5 C18', 'recording wrappers installed by the harness process.'),
  'C19': (True, 'Lean 4 theorems (crash-prefix invariant over the writer trace) + kill-at-every-storage-call correspondence',
-         'Theorems: crash_never_loads, loads_implies_complete, complete_loads_exact, writerTrace_no_flush, writerTrace_close_last. Tie: the real writer killed (os._exit in a forked child) before each '
-         'h5py call, both write paths, small and multi-megabyte payloads; the real loader must raise before the final close and load exactly afterwards; recorded call trace = Lean writer trace. '
+         'Theorems: crash_never_loads, loads_implies_complete, complete_loads_exact, writerTrace_no_flush, writerTrace_close_last; for death by an exception that unwinds the writer: unwind_never_loads, unwind_loads_only_exact, unwind_eq_crash_verdict. Tie: the real writer killed (os._exit in a forked child), interrupted (KeyboardInterrupt raised at the call) or sent SIGTERM before each '
+         'h5py call, both write paths, small and multi-megabyte payloads, also over an existing file and with a loaded file as the source; the real loader must raise before the final close and load exactly afterwards; recorded call trace = Lean writer trace. '
          'PARTIAL: HDF5 flush policy is the sampled assumption.',
          '§5 C19', 'os._exit models a crash; libhdf5 behaviour assumed.'),
  'C11': (True, 'Lean 4 theorems (CSV round-trip with the exact excluded class; archive keys-only round-trip) + correspondence on real result sets',
